@@ -109,7 +109,7 @@ static St *Lp;
 
 static int p_del_queued_timer, p_del_queued_fd, p_del_queued_job, p_del_queued_sig, p_self_del, p_readd_in_cb, p_stale_handle,
 	p_slot_reuse_stale, p_fd_reuse, p_two_sig_then_del, p_retneg, p_retneg_open, p_close_retneg, p_number_reused_in_cb, p_default_loop, p_sig_mod, p_fd_mod_data, p_stop, p_throttle50, p_ms31, p_ms32, p_overflow, p_equal_expiry,
-	p_timer_fired, p_nohandle, p_sig_mod_pending, p_dup_add, p_adders, p_nested, p_job_del_foreign, p_long_run, p_eintr_epoll, p_eintr_retry, p_async_sig, p_hup, p_busy;
+	p_timer_fired, p_nohandle, p_restart, p_sig_mod_pending, p_dup_add, p_adders, p_nested, p_job_del_foreign, p_long_run, p_eintr_epoll, p_eintr_retry, p_async_sig, p_hup, p_busy;
 
 static void init(const char *prop)
 {
@@ -141,6 +141,7 @@ static void init(const char *prop)
 	p_long_run = counter_id("probe", "run_longer_than_1000_iterations");
 	p_eintr_epoll = counter_id("probe", "epoll_wait_eintr");
 	p_nohandle = counter_id("probe", "timer_added_without_asking_for_a_handle");
+	p_restart = counter_id("probe", "loop_run_again_after_a_stop_from_a_callback");
 	p_sig_mod_pending = counter_id("probe", "signal_handler_moved_to_another_level_with_deliveries_on_their_way");
 	p_dup_add = counter_id("probe", "second_add_of_a_watched_descriptor");
 	p_adders = counter_id("probe", "timers_added_by_several_threads_at_once");
@@ -969,6 +970,7 @@ static void gen(const char *prop, RunSpec &spec)
 	if (nj + nt + nf + ns == 0) nj = 1;
 	p.set("njobs", nj); p.set("ntimers", nt); p.set("nfds", nf); p.set("nsigs", ns);
 	p.set("max_iter", r.range(50, 600));
+	p.set("restart", r.chance(1, 2));
 	if (w == 8 && ns == 0 && nj > 0 && r.chance(1, 10)) p.add(0, K_NESTED, -1, 0, (int64_t)r.below((uint64_t)nj), r.below(6));
 	int nobj = nj + nt + nf + ns;
 	int nops = r.chance(1, 2) ? (int)r.range(2, 14) : (int)r.range(14, 70);
@@ -1073,6 +1075,13 @@ static void loop_task(void *)
 		}
 	}
 	if (!failed()) qb_loop_run(LP);
+	// a loop stopped from a callback may be run again: whatever was queued when it stopped is still owed
+	if (!failed() && L.stop_by_plan && p.get("restart", 0) != 0 && L.iter < L.max_iter) {
+		count(p_restart);
+		ev(361, L.iter, (int64_t)L.callbacks);
+		L.stopped = false; L.stop_by_plan = false;
+		qb_loop_run(LP);
+	}
 	ev(360, L.iter, (int64_t)L.callbacks);
 	// after the loop: everything must have been dispatched unless the run was cut by stop / iteration cap
 	if (!failed() && !L.stop_by_plan && L.iter < L.max_iter) {
